@@ -2117,11 +2117,15 @@ class ParameterModelMapper(
                     f'The model parameter "{model_param_names[midx]}" is '
                     f'already defined for model "{self._models[midx].name}"!')
 
+        # Create the new array of model parameter names before the parameter
+        # is added, so that nothing gets modified if it cannot be created.
+        entry = np.where(mask, model_param_names, None)
+        _model_param_names = np.hstack(
+            (self._model_param_names, entry[np.newaxis, :].T))
+
         self._global_paramset.add_param(param)
 
-        entry = np.where(mask, model_param_names, None)
-        self._model_param_names = np.hstack(
-            (self._model_param_names, entry[np.newaxis, :].T))
+        self._model_param_names = _model_param_names
 
         return self
 
